@@ -12,6 +12,12 @@ ORACLES = {"C01": "c01", "C02": "c02", "C03": "c03", "C04": "c04_obs", "C05": "c
 
 def run_job(job):
     t0 = time.time()
+    if job.get("kind") == "invalid":
+        r = gprops.run_job(job)
+        for v in r["violations"]:
+            v["pid"] = "C06"
+        r["exc_msg"] = r["exc_origin"] = None
+        return r
     desc = gprops.make_desc(job)
     rec = engine_g.run_scenario(desc)
     vs = []
